@@ -1044,7 +1044,9 @@ pub fn pump_family(rep: &mut Report, mode: Mode, tier: Tier) {
         let e = "\u{e9}".repeat(n / 2);
         let mut texts: Vec<Vec<u8>> = Vec::new();
         for body in [&a, &e] {
-            for tail in ["\u{1}", "\\q", "\\u12", "\\uD800", "\\uDC00x", "\\uD800\\uDC00", "\\uD800\\uD800\\uDC00", "\\uD800\\n", "\n"] {
+            for tail in [
+                "\u{1}", "\\q", "\\u12", "\\uD800", "\\uDC00x", "\\uD800\\uDC00", "\\uD800\\uD800\\uDC00", "\\uD800\\n", "\n", "\\uD800b", "\\uD800b\\uDC00", "\\uDBFF\u{e9}c", "\\uD834x\\uDD1E", "b\\uDC00\\uD800",
+            ] {
                 texts.push(format!("\"{body}{tail}\"").into_bytes());
                 texts.push(format!("{{\"{body}{tail}\":[\"{tail}{body}\"]}}").into_bytes());
             }
